@@ -194,6 +194,24 @@ def l1(ctx, module, cfg_text, workers=None, timeout=1800, heap="12g", name=None,
     return r
 
 
+def apalache(ctx, module, args, name, timeout=300):
+    """Runs `apalache-mc check <args> <module>.tla` in a scratch copy of the module; returns "ok", "error" (the checker found
+    a counterexample) or "unavailable" (could not run / timed out)."""
+    d = ctx.sub("apalache-" + name)
+    shutil.copy(os.path.join(SPEC, module + ".tla"), d)
+    t = time.time()
+    try:
+        p = subprocess.run(["apalache-mc", "check", "--out-dir=" + os.path.join(d, "out")] + args + [module + ".tla"], cwd=d,
+                           stdout=subprocess.PIPE, stderr=subprocess.STDOUT, text=True, timeout=timeout)
+    except (OSError, subprocess.TimeoutExpired) as e:
+        log("  Apalache %-28s unavailable (%s)" % (name, type(e).__name__))
+        return "unavailable"
+    res = "ok" if "EXITCODE: OK" in p.stdout else "error" if "Checker has found an error" in p.stdout else "unavailable"
+    log("  Apalache %-28s %s  %.1fs" % (name, res, time.time() - t))
+    ctx.notes.append("apalache %s: %s" % (name, res))
+    return res
+
+
 def monitor(ctx, module, trace_files, cfg_extra="", par=8, timeout=1800, heap="3g", label="L3", postcondition="Consumed",
             spec="Spec", dfs=False):
     """Runs a trace specification once per trace file (single worker each, several
